@@ -99,6 +99,17 @@ def Sh.hasSafe : Sh → Bool
   | .seq a b => a.hasSafe || b.hasSafe
   | _ => false
 
+/-- unbounded recursion through catch somewhere in the shape: the number of error deliveries then depends on how many frames
+    the nodes around it really take (nominal in the model) -/
+def Sh.hasCrecur : Sh → Bool
+  | .crecur => true
+  | .call _ b => b.hasCrecur
+  | .catch_ b => b.hasCrecur
+  | .cb _ b => b.hasCrecur
+  | .safe b => b.hasCrecur
+  | .seq a b => a.hasCrecur || b.hasCrecur
+  | _ => false
+
 /-- number of catch frames an error can pass on its way out (for the handler allowance of the oracle) -/
 def Sh.catchDepth : Sh → Nat
   | .catch_ b => b.catchDepth + 1
@@ -295,7 +306,9 @@ def runEv (p : Parsed) : List String :=
     | .ok => "r ret 0"
     | .raised _ => s!"r err es={s.es}"
     | .fuel => "timeout"
-  evs ++ [last]
+  -- error deliveries (entries of mudlib_error_handler), compared with the count the harness takes through verif_error_hook
+  -- (not for programs with safe applies: their real frames - master::object_name, call_other - are not the model's)
+  evs ++ [last] ++ (if p.shape.hasSafe || p.shape.hasCrecur then [] else [s!"handlers {s.raises}"])
 
 def parseLine (mode : Bool) (p : Parsed) (line : String) : Parsed :=
   match toks line with
@@ -348,7 +361,8 @@ def parseLine (mode : Bool) (p : Parsed) (line : String) : Parsed :=
   | ["shape", t] =>
     match parseShape t with
     | some sh =>
-      let lim := { p.lim with hasSafe := sh.hasSafe, catchDepth := sh.catchDepth, noCodeCallbacks := noCodeOf t }
+      let lim := { p.lim with hasSafe := sh.hasSafe, catchDepth := sh.catchDepth, noCodeCallbacks := noCodeOf t,
+                              safeWeight := sh.safeWeight }
       { p with shape := sh, lim := lim }
     | none => { p with bad := line :: p.bad }
   | ["ev", _, _] => if mode then { p with out := (runEv p).reverse ++ p.out } else p
